@@ -172,6 +172,8 @@ pub struct SimPeer {
     pub fake_tip: Option<packed::VerifiableHeader>,
     /// hashes of side-branch blocks this (deviating) peer planted into BlockFilters answers
     pub planted: Vec<packed::Byte32>,
+    /// made-up headers (with their extension) whose hashes this peer handed to the user
+    pub planted_headers: Vec<(packed::Header, packed::Bytes)>,
 }
 
 pub struct Sim {
@@ -262,6 +264,7 @@ impl Sim {
                 lag: p.lag,
                 fake_tip: None,
                 planted: Vec::new(),
+                planted_headers: Vec::new(),
             })
             .collect();
         let oracle = Checker::new(&plan);
@@ -351,7 +354,11 @@ impl Sim {
         if let Some(t) = self.taint.as_ref() {
             let derived = matches!(property, "C03" | "C04" | "C05" | "C06" | "C08" | "C09" | "C12" | "C16");
             let derived = derived || (property == "C08" && t.starts_with("C08/"));
-            if derived && *t != v.key() {
+            // a fork that went unnoticed leaves old entries behind, but it does not undo what a
+            // proven answer consumed afterwards has written
+            let independent = v.key() == "C16/proven_fetch_answer_left_the_transaction_paired_with_another_block"
+                && (t.starts_with("C04/fork_unnoticed") || t.starts_with("C04/fork_switch_without_rollback"));
+            if derived && *t != v.key() && !independent {
                 self.stat(&format!("suppressed_consequence.{}", property));
                 return;
             }
@@ -1571,6 +1578,11 @@ impl Sim {
                         }
                     }
                     packed::LightClientMessageUnionReader::GetBlocksProof(r) => {
+                        if let Some((m, tag)) = byz::planted_blocks_proof(self, p, &r.to_entity(), cfg.v1) {
+                            self.stat("fault.byz.planted_header_proven");
+                            self.peer_send_raw(p, session, proto, m, tag);
+                            return;
+                        }
                         match server::blocks_proof(&self.world, view, &r.to_entity(), cfg.v1) {
                             LcAnswer::Silent(why) => {
                                 self.log(format!("peer{} stays silent: {}", p, why));
@@ -1595,6 +1607,14 @@ impl Sim {
                                 self.oracle = o;
                             }
                             LcAnswer::Reply(m) => {
+                                if let packed::LightClientMessageUnion::SendTransactionsProof(x) = m.to_enum() {
+                                    let asked: Vec<String> = r.tx_hashes().iter().map(|h| format!("{:#x}", h.to_entity())[..10].to_string()).collect();
+                                    self.log(format!(
+                                        "peer{} (branch {} height {}) answers {:?}: {} blocks, {} missing, against #{}",
+                                        p, view.branch, view.height, asked, x.filtered_blocks().len(), x.missing_tx_hashes().len(),
+                                        Unpack::<u64>::unpack(&x.last_header().header().raw().number())
+                                    ));
+                                }
                                 let mut tag = Tag::honest(Kind::SendTransactionsProof);
                                 tag.request = Some(data.clone());
                                 self.peer_send(p, session, proto, m.as_bytes(), tag);
